@@ -491,10 +491,13 @@ class Contract:
     def eval_ensures(self, ctx, old, bound, result):
         out = []
         for item in self.ensures(ctx, old, result, **bound):
+            kind = "post"
+            if len(item) > 3 and isinstance(item[3], dict):
+                kind = item[3].get("kind", "post")  # "finding": an obligation that is expected to be refuted (known finding)
             if len(item) == 2:
-                out.append(("post", item[0], item[1], None))
+                out.append((kind, item[0], item[1], None))
             else:
-                out.append(("post", item[0], item[1], item[2]))
+                out.append((kind, item[0], item[1], item[2]))
         return out
 
     def eval_xposts(self, ctx, old, bound, exc):
@@ -600,7 +603,7 @@ class Contract:
     def callee_may_raise(self, name):
         nm = str(name)
         short = nm.replace("py7zr.", "", 1)
-        if nm in self.noraise or short in self.noraise or short.split(":")[-1] in self.noraise:
+        if nm in self.noraise or short in self.noraise or short.split(":")[-1] in self.noraise or nm.split(":")[-1].split(".")[-1] in self.noraise:
             return None
         return self.default_raise
 
